@@ -763,6 +763,10 @@ mod error;
 pub mod fmt;
 #[cfg(feature = "std")]
 mod now;
+#[cfg(all(jiff_verif, feature = "std"))]
+#[doc(hidden)]
+#[path = "verif.rs"]
+pub mod __verif;
 #[doc(hidden)]
 pub mod shared;
 mod signed_duration;
